@@ -1,7 +1,9 @@
 (* C02 -- every call returns; a deadline is reported while work is pending.
    (The bounded-rounds progress theorem is in Proofs/ConnProgress.v when present.) *)
 From LibTw2 Require Import Base.Res Model.PacketTypes Model.ConnCore Model.Conn6 Model.Conn7
-  Proofs.ConnCoreInv Proofs.Conn6Inv Proofs.Conn7Inv.
+  Model.LinkGhost Model.Link6
+  Proofs.ConnCoreInv Proofs.Conn6Inv Proofs.Conn7Inv Proofs.LinkArith Proofs.LinkCore Proofs.Link6Inv
+  Proofs.ConnProgress.
 From Coq Require Import ZArith List.
 Open Scope Z_scope.
 
@@ -45,6 +47,43 @@ Proof.
   rewrite Hr in H. injection H as <- <- <-. exact (deadline7 c' Hok Ha).
 Qed.
 
+(* chunks get through (the step that does the work, both protocol versions): the sender has
+   submitted |sub| vital chunks and still holds a+1..|sub| in its resend queue, the receiver has been
+   handed d of them (a <= d). When the resend deadline passes (online_resend) and the packet is
+   flushed (online_flush: the next tick / flush), then whatever these two calls emit, delivered in
+   order, leaves the receiver's acknowledgement at |sub| -- every submitted chunk is delivered -- and
+   nothing stays in the sender's packet. *)
+Theorem C02_catch_up : forall pp now o sub nvs a d rr o1 ds ts o2 ds2,
+  snd_inv o sub nvs a -> pk_count_ok (o_packet_nv o) -> o_queue o <> [] ->
+  a <= d <= zlen sub ->
+  online_resend pp now o = Ok (o1, ds, ts) -> online_flush pp o1 = Ok (o2, ds2) ->
+  exists rr' evs, recv_chunks (seqof d) rr (flat (ds ++ ds2)) = Ok (seqof (zlen sub), rr', evs)
+                  /\ pc_chunks (o_packet o2) = [].
+Proof. exact catch_up. Qed.
+
+(* ... and its hypotheses hold in every reachable state of the 0.6 link of property C01: if A is
+   online with unacknowledged chunks and B is online, one resend + flush at A, delivered in order
+   to B, completes the delivery of everything A's application submitted *)
+Theorem C02_catch_up_reachable6 : forall ra rb ls w oa ob now o1 ds ts o2 ds2,
+  admissible_run (link_new ra rb) ls -> link_run (link_new ra rb) ls = Ok w ->
+  c_state (l_conn (k_a w)) = Online oa -> c_state (l_conn (k_b w)) = Online ob ->
+  o_queue oa <> [] ->
+  online_resend params6 now oa = Ok (o1, ds, ts) -> online_flush params6 o1 = Ok (o2, ds2) ->
+  exists rr' evs, recv_chunks (o_ack ob) (o_rr ob) (flat (ds ++ ds2))
+                  = Ok (seqof (zlen (l_sub (k_a w))), rr', evs).
+Proof.
+  intros ra rb ls w oa ob now o1 ds ts o2 ds2 Hadm Hrun Hoa Hob Hq Hr Hf.
+  destruct (link_run_inv ls _ (link_new_inv ra rb) Hadm) as [w' [Hrun' [HA [HB _]]]].
+  rewrite Hrun in Hrun'. injection Hrun' as <-.
+  destruct (online_parts _ _ _ _ _ _ HA Hoa) as [_ [_ [Hcnv [a [Hsnd [Ha _]]]]]].
+  destruct (sv_online _ _ _ _ _ HB ob Hob) as [_ [_ [_ Hackb]]].
+  pose proof (sv_dle _ _ _ _ _ HB) as Hdle.
+  rewrite Hackb.
+  destruct (catch_up params6 now oa _ _ a (zlen (l_del (k_b w))) (o_rr ob) o1 ds ts o2 ds2 Hsnd Hcnv Hq
+              (conj Ha Hdle) Hr Hf) as [rr' [evs [E _]]].
+  exists rr', evs. exact E.
+Qed.
+
 (* non-vacuity, and the witness of the repaired defect 8ebb95a: a 0.7 endpoint with a 1390-byte
    vital chunk in its resend queue; the resend returns and emits the chunk in a 1400-byte datagram *)
 Example C02_nonvacuous :
@@ -69,4 +108,6 @@ Print Assumptions C02_calls_return7.
 Print Assumptions C02_resend_terminates.
 Print Assumptions C02_deadline_finite6.
 Print Assumptions C02_deadline_finite7.
+Print Assumptions C02_catch_up.
+Print Assumptions C02_catch_up_reachable6.
 Print Assumptions C02_nonvacuous.
